@@ -160,6 +160,9 @@ class FakeHidOS:
         gw = self.gw
         gw.opens = getattr(gw, "opens", 0) + 1
         gw.fire("on_open", gw.opens)
+        if not hasattr(gw, "openlog"):
+            gw.openlog = []
+        gw.openlog.append([round(gw.loop.time(), 6), 1 if gw.present else 0])
         if not gw.present:
             raise OSError(19, "No such device")
         self._next_fd += 1
@@ -189,6 +192,7 @@ class FakeHidOS:
     def write(self, fd, data):
         gw = self.gw
         if not gw.present or gw.write_error or gw.fd != fd:
+            gw.write_error = False          # a write error is a one-off glitch; a vanished device stays absent
             gw.writes.append({"ix": len(gw.writes) + 1, "task": _task_name(), "data": list(data),
                               "now": round(gw.loop.time(), 6), "failed": 1})
             gw.fire("after_write", len(gw.writes))
